@@ -54,6 +54,75 @@ def _under_not_closed(fn: ast.AST, call_needle: str) -> Optional[bool]:
     return ok if found else None
 
 
+def _seconds_ms(v: Any) -> Optional[int]:
+    """a numeric literal (seconds) as whole milliseconds"""
+    if isinstance(v, bool) or not isinstance(v, (int, float)):
+        return None
+    ms = v * 1000
+    return int(round(ms)) if ms >= 0 and abs(ms - round(ms)) < 1e-9 else None
+
+
+def _is_never(e: ast.AST) -> bool:
+    """`None` / `inf` / `math.inf` / `float("inf")`: no timeout"""
+    t = ast.unparse(e)
+    return (isinstance(e, ast.Constant) and e.value is None) or t in ("inf", "math.inf", "float('inf')", 'float("inf")')
+
+
+def _wait_nat(e: ast.AST) -> Optional[str]:
+    """a finite timeout expression over `self.config.keep_alive_timeout` as a Lean `Nat` term in milliseconds (`T`)"""
+    if ast.unparse(e) == "self.config.keep_alive_timeout":
+        return "T"
+    if isinstance(e, ast.Constant):
+        ms = _seconds_ms(e.value)
+        return None if ms is None else str(ms)
+    if isinstance(e, ast.BinOp) and isinstance(e.op, ast.Add):
+        a, b = _wait_nat(e.left), _wait_nat(e.right)
+        return None if a is None or b is None else f"({a} + {b})"
+    if isinstance(e, ast.BinOp) and isinstance(e.op, ast.Mult):
+        # a whole factor (a plain number, not seconds) times a duration
+        for k, d in ((e.left, e.right), (e.right, e.left)):
+            if isinstance(k, ast.Constant) and isinstance(k.value, int) and not isinstance(k.value, bool) and k.value >= 0:
+                dd = _wait_nat(d)
+                if dd is not None:
+                    return f"({k.value} * {dd})"
+        return None
+    if isinstance(e, ast.Call) and ast.unparse(e.func) in ("max", "min") and len(e.args) == 2 and not e.keywords:
+        a, b = _wait_nat(e.args[0]), _wait_nat(e.args[1])
+        return None if a is None or b is None else f"(Nat.{ast.unparse(e.func)} {a} {b})"
+    return None
+
+
+def _wait_opt(e: ast.AST) -> Optional[str]:
+    """the timeout handed to `asyncio.wait_for` / `trio.move_on_after` as a Lean `Option Nat` term (`none` = waits for ever)"""
+    if _is_never(e):
+        return "none"
+    if isinstance(e, ast.BoolOp) and isinstance(e.op, ast.Or) and len(e.values) == 2:
+        # Python's `a or b`: a falsy `a` (a timeout of 0) gives `b`
+        a, b = _wait_nat(e.values[0]), _wait_opt(e.values[1])
+        return None if a is None or b is None else f"(if {a} = 0 then {b} else some {a})"
+    a = _wait_nat(e)
+    return None if a is None else f"some {a}"
+
+
+def _idle_wait_expr(fn: ast.AST, worker: str) -> Optional[ast.AST]:
+    """the expression that limits the idle task's `await self.context.terminated.wait()`"""
+    found: List[ast.AST] = []
+    for n in ast.walk(fn):
+        if worker == "asyncio" and isinstance(n, ast.Call) and ast.unparse(n.func) in ("asyncio.wait_for", "wait_for"):
+            if n.args and "terminated.wait()" in ast.unparse(n.args[0]):
+                t = n.args[1] if len(n.args) > 1 else next((k.value for k in n.keywords if k.arg == "timeout"), None)
+                if t is not None:
+                    found.append(t)
+        if worker == "trio" and isinstance(n, (ast.With, ast.AsyncWith)) and "terminated.wait()" in ast.unparse(n):
+            for item in n.items:
+                c = item.context_expr
+                if isinstance(c, ast.Call) and ast.unparse(c.func) in ("trio.move_on_after", "move_on_after", "trio.fail_after", "fail_after") and len(c.args) == 1:
+                    found.append(c.args[0])
+    # exactly one wait on `terminated` and it is the limited one
+    waits = [n for n in ast.walk(fn) if isinstance(n, ast.Call) and ast.unparse(n.func).endswith("terminated.wait")]
+    return found[0] if len(found) == 1 and len(waits) == 1 else None
+
+
 def run(src: Path, ex: Any) -> str:
     fail, find_def, parse, q = ex.fail, ex.find_def, ex.parse, ex.q
     out = ["/- GENERATED by tools/extract_conn.py — guards / statement orders / Updated call sites used by HC.Conn.Server — do not edit -/",
@@ -192,6 +261,25 @@ def run(src: Path, ex: Any) -> str:
                 g = (isinstance(first, ast.If) and ast.unparse(first.test) == "event.stream_id not in self.streams"
                      and isinstance(_first_real(first.body), ast.Return))
     emit("h2StreamClosedIgnoresUnknown", g, "`if event.stream_id not in self.streams: return` first in H2Protocol.stream_send(StreamClosed)")
+    # … and for a registered stream the branch ends by telling the server whether the connection is idle now, whatever happened
+    # before: `if not self.closed: await self.send(Updated(idle=idle))` is a statement of the branch's own block (an `if` of its
+    # own without `else`, not the `elif` / `else` of the shutdown GOAWAY before it), it follows `_close_stream`, nothing between
+    # the two leaves the branch, and it is the only Updated of the branch.  (The timer was stopped when the request arrived:
+    # without this Updated nothing restarts it, and during shutdown nothing would close the connection.)
+    v = None
+    if fn is not None:
+        for n in ast.walk(fn):
+            if isinstance(n, ast.If) and ast.unparse(n.test) == "isinstance(event, StreamClosed)":
+                body = n.body
+                i_close = next((k for k, st in enumerate(body) if "self._close_stream(" in ast.unparse(st)), None)
+                i_upd = [k for k, st in enumerate(body)
+                         if isinstance(st, ast.If) and ast.unparse(st.test) == "not self.closed" and not st.orelse
+                         and [ast.unparse(b) for b in st.body if not (isinstance(b, ast.Expr) and isinstance(b.value, ast.Constant))] == ["await self.send(Updated(idle=idle))"]]
+                n_upd = sum(1 for st in body for c in ast.walk(st) if isinstance(c, ast.Call) and ast.unparse(c.func) == "Updated")
+                if i_close is not None:
+                    v = (len(i_upd) == 1 and n_upd == 1 and i_close < i_upd[0]
+                         and not any(isinstance(x, (ast.Return, ast.Raise, ast.Break, ast.Continue)) for st in body[i_close + 1:i_upd[0]] for x in ast.walk(st)))
+    emit("h2StreamClosedAlwaysUpdates", v, "H2Protocol.stream_send(StreamClosed): after `_close_stream`, `if not self.closed: await self.send(Updated(idle=idle))` is an unconditional statement of the branch (not an elif / else of the shutdown GOAWAY)")
     # H2Protocol.handle(Closed): the flag and the loop over EVERY registered stream are unconditional.  Closed is reported by
     # several parties (a failed write, the reader's end, the idle timer) and `_create_stream` does not look at `self.closed`:
     # a stream opened between two reports is told by the later one only if that one is not skipped
@@ -322,6 +410,14 @@ def run(src: Path, ex: Any) -> str:
                   and "_initiate_server_close" in ast.unparse(it) and "keep_alive_timeout" in ast.unparse(it) and "terminated.wait()" in ast.unparse(it))
         emit(f"{worker}IdleFireClosesProtocolThenTransport", ok,
              f"{worker} _idle_timeout: wait for terminated or keep_alive_timeout, then protocol.handle(Closed()) and close the transport")
+        # which expression limits the idle task's wait (milliseconds; `none`: the wait is unlimited, only shutdown ends it)
+        we = _idle_wait_expr(it, worker) if it is not None else None
+        wl = _wait_opt(we) if we is not None else None
+        if wl is None:
+            fail(f"{worker}IdleWait", "_idle_timeout: the expression handed to " + ("asyncio.wait_for" if worker == "asyncio" else "trio.move_on_after")
+                 + f" around terminated.wait() is not recognised ({ast.unparse(we) if we is not None else 'not found'})")
+            wl = "none"
+        out.append(f"def {worker}IdleWait (T : Nat) : Option Nat := {wl}   -- {worker} _idle_timeout waits for `terminated` at most `{ast.unparse(we) if we is not None else '?'}` (T = keep_alive_timeout, ms)")
         ps_txt = ast.unparse(ps) if ps is not None else ""
         emit(f"{worker}UpdatedDrivesTimer", "self.idle_task.restart" in ps_txt and "self.idle_task.stop" in ps_txt and "event.idle" in ps_txt,
              f"{worker} protocol_send(Updated): restart when idle else stop")
